@@ -83,8 +83,9 @@ def build(p):
             return fn(p['k'], p['n'], p['m'], planted_assignments=[list(a) for a in p['planted']])
         finally:
             mod.random = old
-    conv = [list, tuple, set, frozenset][(p['k'] + p['n'] + p['m']) % 4]      # any collection of literals is an assignment
-    return fn(p['k'], p['n'], p['m'], seed=p['seed'], planted_assignments=[conv(a) for a in p['planted']])
+    conv = [list, tuple, set, frozenset][(p['k'] + p['n'] + p['m']) % 4]      # any collection of literals is an assignment,
+    order = reversed if (p['k'] + p['n'] + p['m'] + p['seed']) % 3 else list            # in any order
+    return fn(p['k'], p['n'], p['m'], seed=p['seed'], planted_assignments=[conv(order(list(a))) for a in p['planted']])
 
 
 def judge(p, alg=None, part=None):
@@ -168,6 +169,9 @@ def judge(p, alg=None, part=None):
     return None
 
 
+_HISTORY = []
+
+
 def shard(items, part):
     alg = Z3Alg()
     from cnfgen.families import randomformulas, randomkxor
@@ -176,8 +180,11 @@ def shard(items, part):
     for p in items:
         part.counts['instances'] += 1
         msg = judge(p, alg, part)
+        _HISTORY.append(p)
         if msg:
             part.case('c13.s', 'shape', p, msg)
+            if len(part.cases) <= 6:
+                part.cases[-1]['history'] = list(_HISTORY[:-1])   # the calls this process made before (see replay)
         else:
             part.counts['valid'] += 1
             if p['m'] > 0 and p['k'] <= p['n']:
@@ -189,6 +196,16 @@ def replay(case):
     if case['harness'].startswith('c13.x'):
         return xengine.replay(case)
     msg = judge(case['input'])
+    if msg is None and case.get('history'):
+        # not in a fresh process: repeat the generator calls the shard had made before (state kept between calls)
+        for q in case['history']:
+            try:
+                build(q)
+            except Exception:  # noqa
+                pass
+        msg = judge(case['input'])
+        if msg is not None:
+            msg = 'only after the %d generator calls made earlier in the same process: %s' % (len(case['history']), msg)
     return (msg is not None), (msg or 'shape conditions hold')
 
 
